@@ -24,6 +24,8 @@ QUERIES = ['s', 't', 'f', 'b', 'n', 'l', 'l[*]', 'ls[*]', 'e', 'e[*]', 'm', 'm.k
            '%qv', '%mv', '%lv', '%lit', '%ev', 'm[ keys == "k" ]', 'm[ keys == "zz" ]', 'n[ k == 1 ]']
 RHS = ['5', '1', '"ab"', '"zz"', '1.5', 'true', 'null', '[1, 5]', '["ab", "c"]', '[]', 'r[1,5]', '/^a/',
        's2', 't2', 'l', 'l[*]', 'missing', '%lit', '%qv', '{k: 5, j: "x"}', 's', 'lm[*].k',
+       # lists of lists: a list on the left is one member, or not a member (the negation of `in` over a whole list)
+       '[[1, 5, 9], [2]]', '[[7], [8, 9]]', '[["a", "ab"], []]',
        # right-hand sides that select NOTHING (a comparison against them is skipped, negated or not)
        'lm[ k == 77 ].k', '%ev', 'lm[ k == 77 ]']
 BINARY = ['==', 'in', '>', '>=', '<', '<=']
@@ -158,6 +160,9 @@ def run_groups(ctx, groups, tag):
         if op in ('>', '>=', '<', '<=', '==') and not some and single_comparable(doc, q, rhs):
             if a in INV and na != INV[a]:
                 ctx.failing('single comparable value: `%s` is %s but `not %s` is %s' % (A, a, A, na), dict(info, cls='single-value-flip'), found=True)
+        if op == 'in' and not some and rhs and rhs.startswith('[') and q in doc and a in INV and na != INV[a]:
+            # one value on the left (a scalar, or a whole list as ONE candidate member) against a literal list: membership is decided, its negation is the opposite
+            ctx.failing('membership of one value in a literal list: `%s` is %s but `not %s` is %s' % (A, a, A, na), dict(info, cls='membership-flip'), found=True)
         if a in ('PASS', 'FAIL') and na == a and op in UNARY and q in doc and not isinstance(doc[q], list) and op != 'empty':
             ctx.failing('prefix negation ignored: `%s` and its negation are both %s' % (A, a), dict(info, cls='negation-ignored'), found=True)
     return n, dist
@@ -241,6 +246,8 @@ def run(ctx):
         # always: a literal-valued variable on the LEFT of `==` / `in` against a query on the right (the literal-vs-query arm of the operators)
         core = [g for g in groups_all if g[1] in ('%lit',) and g[3] in ('==', 'in') and g[4] in ('s2', 't2', 'l', 'l[*]', 'missing', 's', 'lm[*].k')]
         groups += [g for g in core if g not in groups]
+        core2 = [g for g in groups_all if g[1] in ('l', 'ls', 'e', 'l[*]', 's') and g[3] == 'in' and g[4] in ('[[1, 5, 9], [2]]', '[[7], [8, 9]]', '[["a", "ab"], []]')]
+        groups += [g for g in core2 if g not in groups]
     n, dist = run_groups(ctx, groups, 'c03')
     n3, dist3 = run_groups(ctx, random_groups(ctx, 400 if ctx.tier == 'quick' else 3000), 'c03rnd')
     ctx.coverage['random_clause_groups'] = n3
